@@ -570,8 +570,8 @@ func init() {
 		Rule:        "twin sessions: a typed prefix, a failing part F (parse error texts; the seven runtime error classes raised at top level after 0..2 completed global assignments, at call depth 1..200, in while/for bodies at the k-th iteration, inside a generator after its k-th yield, inside a nested generator consumed by a zipped loop, inside a returned closure, inside a loop body of a function calling into depth, several failures in a row) and a suffix that reuses frames (recursion), contexts (zipped loop), closures, a top-level return out of a for loop and a snapshot of all probe globals; the twin replaces F by literal assignments of exactly the globals the reference says F completed. Suffix observations must be equal between the twins and equal to the reference; the machine must be clean right after every failure and untouched by a parse error; the failing part and the suffix handed to processInput as one multi-statement input must print and leave exactly what they do when handed over one statement at a time. REPL and script mode. Every case is non-trivial; distinct by session text and mode.",
 		Assumptions: []string{"globals completed by F are literal-printable by construction (ints, strings, arrays); helper function definitions of F are replayed verbatim in the twin"},
 		Families: []core.Family{
-			{Name: "twin", Count: countFn(10000, 300000), Run: c08Case},
+			{Name: "twin", Count: countFn(10000, 120000), Run: c08Case},
 		},
-		Floors: []core.Floor{{Key: "suffix_statements_compared", Quick: 20000, Thor: 2000000}, {Key: "failures_injected", Quick: 2500, Thor: 250000}, {Key: "parse_errors_injected", Quick: 150, Thor: 15000}, {Key: "grouped_inputs_compared", Quick: 2000, Thor: 200000}, {Key: "repl_loop_sessions_compared", Quick: 2000, Thor: 200000}, {Key: "tag:failure-at:", Quick: 12, Thor: 12}, {Key: "tag:err:", Quick: 7, Thor: 7}},
+		Floors: []core.Floor{{Key: "suffix_statements_compared", Quick: 20000, Thor: 800000}, {Key: "failures_injected", Quick: 2500, Thor: 100000}, {Key: "parse_errors_injected", Quick: 150, Thor: 6000}, {Key: "grouped_inputs_compared", Quick: 2000, Thor: 80000}, {Key: "repl_loop_sessions_compared", Quick: 2000, Thor: 80000}, {Key: "tag:failure-at:", Quick: 12, Thor: 12}, {Key: "tag:err:", Quick: 7, Thor: 7}},
 	})
 }
